@@ -89,6 +89,9 @@ if __name__ == "__main__":
         for name in sorted(os.listdir(os.path.join(VERIF, "seeded"))):
             meta = json.load(open(os.path.join(VERIF, "seeded", name, "meta.json")))
             pid = meta["property"]
+            if meta.get("obsolete"):
+                out[name] = {"obsolete": meta["obsolete"]["since"]}
+                continue
             if os.path.exists(os.path.join(VERIF, "harness", "props", pid + ".py")):
                 out[name] = run(name, [pid], tier)
         json.dump(out, open(os.path.join(VERIF, "seeded", "MATRIX.json"), "w"), indent=1)
